@@ -28,6 +28,8 @@ type c06Case struct {
 	// Prev, if >= 0, makes the judged session the SECOND one of the same peer: a first session in which
 	// the remote proposed hold time Prev is ended by the remote's Cease, then corebgp reconnects.
 	Prev int `json:"previous_session_remote_hold"`
+	// NilHandler: OnEstablished returns a nil UPDATE handler (legal); received UPDATEs still count as traffic
+	NilHandler bool `json:"nil_handler,omitempty"`
 }
 
 type c06Obs struct {
@@ -63,7 +65,7 @@ func c06Run(cs c06Case, ch vrt.Chooser, trace bool) (*world.World, *vrt.Exec, *c
 	e := vrt.Run(vrt.Config{Horizon: int64(span + 100*time.Second), LegacyTimers: cs.Legacy, Trace: trace, Chooser: ch, MaxSteps: 400000}, func() {
 		w = world.New(libIP)
 		w.NewServer(libIP)
-		pl := &world.Plugin{W: w, Peer: "P1", NoYield: ch == nil}
+		pl := &world.Plugin{W: w, Peer: "P1", NoYield: ch == nil, NilHandler: cs.NilHandler}
 		pl.Handle = func(p *world.Plugin, s, n int, b []byte) *corebgp.Notification {
 			if string(b) == "SLOW" {
 				vrt.Sleep(500 * time.Millisecond)
@@ -467,19 +469,41 @@ func c06Check(c *harness.Ctx) {
 		for _, r := range []int{0, 3, 9, 90} {
 			for _, prev := range []int{0, 3, 30} {
 				for _, tr := range []string{"silent", "ka-just-before", "upd-half", "silent-openconfirm"} {
-					for _, inbound := range []bool{false, true} {
-						idx++
-						if !c.Mine(idx) {
-							continue
+					for _, wr := range []string{"none", "burst"} {
+						for _, inbound := range []bool{false, true} {
+							idx++
+							if !c.Mine(idx) {
+								continue
+							}
+							if c.Expired() {
+								return
+							}
+							cs := c06Case{Local: l, Remote: r, Traffic: tr, Writes: wr, Inbound: inbound, Legacy: idx%2 == 0, Prev: prev}
+							b, _ := json.Marshal(cs)
+							c.Eval(b, true)
+							c06Eval(c, cs)
 						}
-						if c.Expired() {
-							return
-						}
-						cs := c06Case{Local: l, Remote: r, Traffic: tr, Writes: "none", Inbound: inbound, Legacy: idx%2 == 0, Prev: prev}
-						b, _ := json.Marshal(cs)
-						c.Eval(b, true)
-						c06Eval(c, cs)
 					}
+				}
+			}
+		}
+	}
+	// a plugin without an UPDATE handler: UPDATEs are traffic all the same
+	for _, l := range []int{3, 9, 90} {
+		for _, r := range []int{3, 10, 90} {
+			for _, tr := range []string{"upd-half", "alternate", "silent", "ka-third"} {
+				for _, wr := range []string{"none", "quarter"} {
+					idx++
+					if !c.Mine(idx) {
+						continue
+					}
+					if c.Expired() {
+						return
+					}
+					cs := c06Case{Local: l, Remote: r, Traffic: tr, Writes: wr, Inbound: idx%2 == 0, Legacy: idx%4 < 2, Prev: -1, NilHandler: true}
+					b, _ := json.Marshal(cs)
+					c.Eval(b, true)
+					c06Eval(c, cs)
 				}
 			}
 		}
